@@ -72,6 +72,10 @@ impl<'a> FileOperations for Pager {
 
         let page_zero = pager.load_page_zero(block_size)?;
         pager.db_header = Some(*page_zero.metadata());
+        // The cache size the database was created with is kept in the header.
+        pager
+            .cache
+            .set_capacity(page_zero.metadata().cache_size as usize);
 
         Ok(pager)
     }
